@@ -9,6 +9,7 @@ import Librfn.Driver.Messageq
 import Librfn.Driver.MessageqConc
 import Librfn.Driver.Bintree
 import Librfn.Driver.PT
+import Librfn.Driver.HB
 
 def main (args : List String) : IO UInt32 :=
   match args with
@@ -23,4 +24,5 @@ def main (args : List String) : IO UInt32 :=
   | "messageq-conc" :: rest => Librfn.Driver.MessageqConc.main rest
   | "bintree" :: rest => Librfn.Driver.Bintree.main rest
   | "pt" :: rest => Librfn.Driver.PT.main rest
+  | "hb" :: rest => Librfn.Driver.HB.main rest
   | _ => do IO.eprintln "usage: librfn_model <engine> [args]"; return 2
